@@ -25,6 +25,10 @@ Fixpoint valid_map_from (n inv lo:Z) (m:list Z) : bool :=
   end.
 Definition valid_mapb (n inv:Z) (m:list Z) : bool := valid_map_from n inv 0 m.
 
+(* the precondition after fix-F-C02f: valid entries in range, in any order (boolean version) *)
+Definition in_range_mapb (n inv:Z) (m:list Z) : bool :=
+  forallb (fun k => (k =? inv) || ((0 <=? k) && (k <? n))) m.
+
 (* indexed strings: entry i of (offsets, bytes) *)
 Definition entry (idx vals:list Z) (i:Z) : list Z := slice vals (nthZ idx i) (nthZ idx (i + 1)).
 Definition decode (idx vals:list Z) : list (list Z) :=
